@@ -1,5 +1,6 @@
 import Hyeong.Props.C13
 #print axioms HyE.C13.cli_outcome
+#print axioms HyE.C13.run_end_to_end
 #print axioms HyE.C13.cli_bad_file
 #print axioms HyE.C13.exit_codes
 #print axioms HyE.C13.check_total
